@@ -17,9 +17,9 @@ from harness.common import guard, vint
 FUNCTIONS = ["ckl.interpreter.Interpreter.interpret", "ckl.nodes.NodeRequire.evaluate",
              "ckl.functions.Environment.pushModuleStack/popModuleStack/getModules/put/set/get",
              "ckl.nodes.NodeDef/NodeAssign/NodeFor/NodeBlock"]
-OUTSIDE = ["quick tier: the last command of a 3-command history is one of 14 observer commands",
-           "thorough tier: 3-command histories over the whole alphabet; 4-command histories are first command (any), two of 16 "
-           "state-changing commands, one of 14 observers", "histories longer than the bound (the unit step argues for the module stack only)",
+OUTSIDE = ["quick tier: the last command of a 3-command history is one of 15 observer commands",
+           "thorough tier: 3-command histories over the whole alphabet; 4-command histories are first command (any), two of 17 "
+           "state-changing commands, one of 15 observers", "histories longer than the bound (the unit step argues for the module stack only)",
            "more than two interpreter instances", "random long histories"]
 REACH = {"history", "step"}
 
@@ -34,13 +34,17 @@ CMDS = [
     "def class K do def v = 10; def get(self) self->v end; 'k'",
     "def class K do def v = 20; def w = undefined_zz; def get(self) 0 end; 'k2'", "K->get()",
     "def class G do def low = 1; def high = error 'boom' end", "G->low",
+    # the locals of a call (also of a function without parameters) live in the call's own frame: a successful
+    # call leaves the session's definitions alone, a failed one leaves nothing behind
+    "def z0() do def a = 100; def zloc = 1; a end", "z0()",
+    "def e0() do def zloc = 5; error 'boom' end; e0()", "zloc",
 ]
 
 
 # commands that observe the session state (quick tier: the last command of a history is one of these)
 OBSERVERS = ["a", "f(2)", "[b, c]", "good->get()", "qq", "length(load_log)", "require broken", "require cyc_a",
              "require good; good->inc()", "require needs_broken", "require other; other->via_good()", "a = a + 1",
-             "K->get()", "G->low"]
+             "K->get()", "G->low", "zloc"]
 
 
 # commands that change the session (thorough tier: the middle commands of a 4-command history)
@@ -49,7 +53,7 @@ MUTATORS = ["def a = 1", "def a = 5", "a = a + 1", "def f(x) x + a", "def b = 5;
             "for i in [1, 2, 3] do def qq = i; if i == 2 then error 'stop' end", "require other; other->via_good()",
             "def class K do def v = 10; def get(self) self->v end; 'k'",
             "def class K do def v = 20; def w = undefined_zz; def get(self) 0 end; 'k2'",
-            "def class G do def low = 1; def high = error 'boom' end", "def )", "require badsyntax"]
+            "def class G do def low = 1; def high = error 'boom' end", "def )", "require badsyntax", "z0()"]
 
 
 def bounds(tier):
@@ -176,6 +180,16 @@ class Model:
         if cmd.startswith("def class G"):
             return ("err", "boom")
         if cmd == "G->low":
+            return self.E
+        if cmd.startswith("def z0()"):
+            d["z0"] = True
+            return ("ok", "<#z0>")
+        if cmd == "z0()":
+            return ("ok", "100") if "z0" in d else self.E
+        if cmd.startswith("def e0()"):
+            d["e0"] = True
+            return ("err", "boom")
+        if cmd == "zloc":
             return self.E
         if cmd == "length(load_log)":
             return ("ok", str(len(self.loaded)))
